@@ -163,10 +163,10 @@ struct Clean<'a> {
 
 const DROP_ATTRS: &[&str] = &[
     "allow", "inline", "must_use", "repr", "warn", "deny", "expect", "strum", "keyword", "kw",
-    "kwm", "non_exhaustive", "serde",
+    "kwm", "non_exhaustive", "serde", "default", "kw_map_name", "kwm_map_name", "subset",
 ];
 const KEEP_DERIVES: &[&str] = &[
-    "Clone", "Copy", "PartialEq", "Eq", "Debug", "Default",
+    "Clone", "Copy", "PartialEq", "Eq", "PartialOrd", "Ord", "Debug",
 ];
 
 impl<'a> Clean<'a> {
@@ -250,6 +250,9 @@ impl<'a> Clean<'a> {
                                     keep.push(p);
                                 }
                             }
+                        }
+                        if keep.iter().any(|k| k == "Clone") && !keep.iter().any(|k| k == "Copy") {
+                            keep.retain(|k| k != "Clone");
                         }
                         keep.join(", ")
                     };
